@@ -23,9 +23,9 @@ echo "== demo with the change (must FAIL):"
 pkg=$(dirname $(git status --porcelain | grep seeded_demo_test.go | awk '{print $2}' | head -1))
 go test -vet=off -count=1 -run 'TestSeededDemo' ./$pkg/ 2>&1 | tail -3
 echo "== demo without the change (must PASS):"
-git stash push -q -- $files
+git apply -R $D/patch.diff   # (not git stash: the stash is shared by all worktrees of a repository)
 go test -vet=off -count=1 -run 'TestSeededDemo' ./$pkg/ 2>&1 | tail -2
-git stash pop -q
+git apply $D/patch.diff
 echo "== applying to /repo and running checks: $*"
 cd /repo && git apply $D/patch.diff || { echo "patch does not apply to /repo"; exit 3; }
 for c in "$@"; do (cd /verif && timeout 900 ./check $c 2>&1 | grep -E "VIOLATION|^OK|KNOWN" | head -3); done
